@@ -4,6 +4,7 @@ import (
 	"context"
 	"fmt"
 	"math/rand/v2"
+	"sync"
 	"testing"
 	"time"
 
@@ -206,6 +207,77 @@ func TestC16(t *testing.T) {
 			r.Distinct(c.Schemes, c.Invalid, c.Workers)
 			if pi < 2 {
 				r.Sample(c)
+			}
+		}
+		// two blocks verified on the same pool with overlapping lifetimes: each verdict must
+		// depend on its own signatures only
+		if !poisoned && pi%2 == 0 {
+			type ov struct {
+				c       c16Block
+				rb      *chain.ExecutionBlock
+				invalid bool
+				err     error
+			}
+			var pair [2]*ov
+			for k := range pair {
+				o := &ov{c: c16Block{Workers: cfg.SigWorkers, Cores: cfg.Cores, Seq: 100 + k}}
+				n := 1 + rng.IntN(12)
+				badAt := -1
+				if (k == 0) == (rng.IntN(2) == 0) || rng.IntN(4) == 0 {
+					badAt = rng.IntN(n)
+				}
+				var txs []*chain.Transaction
+				for i := 0; i < n; i++ {
+					sc := []string{"ed25519", "ed25519", "secp256r1", "bls"}[rng.IntN(4)]
+					o.c.Schemes = append(o.c.Schemes, sc)
+					ss := byScheme[sc]
+					txs = append(txs, mkTx(ss[rng.IntN(len(ss))], i != badAt))
+				}
+				if badAt >= 0 {
+					o.c.Invalid = []int{badAt}
+					o.invalid = true
+				}
+				blk, err := fx.Block(fx.Genesis, fx.DB, ts, txs)
+				if err != nil {
+					t.Fatal(err)
+				}
+				if o.rb, err = fx.Reparse(blk); err != nil {
+					t.Fatal(err)
+				}
+				pair[k] = o
+			}
+			wit := map[string]any{"first": pair[0].c, "second": pair[1].c}
+			done := kit.Go(func() {
+				var wg sync.WaitGroup
+				for _, o := range pair {
+					wg.Add(1)
+					go func(o *ov) {
+						defer wg.Done()
+						r.Guard("Chain.Execute", wit, func() { _, o.err = inst.Chain.Execute(ctx, fx.DB, o.rb, true) })
+					}(o)
+				}
+				wg.Wait()
+			})
+			res, stacks := kit.AwaitOrDeadlock(done, []string{"internal/workers", "chain.(*AuthBatch)", "chain.(*Processor)", "chain.(*authBatchWorker)"}, 3*time.Second, 120*time.Second)
+			r.Eval()
+			switch res {
+			case kit.Deadlock:
+				hangs++
+				wit["stacks"] = stacks
+				r.Violation("C16/verification-hangs/overlapping-blocks", wit, "two blocks verified concurrently on one pool never returned (deadlock witness)")
+			case kit.Unknown:
+				r.Inconclusive("overlapping Chain.Execute still running after the watchdog without a deadlock witness")
+			default:
+				for k, o := range pair {
+					if o.invalid && o.err == nil {
+						r.Violation("C16/accepts-invalid-signature/overlapping-blocks", wit, "block %d of an overlapping pair has an invalid signature at %v but verified", k, o.c.Invalid)
+					}
+					if !o.invalid && o.err != nil {
+						r.Violation("C16/rejects-valid-signatures/overlapping-blocks", wit, "block %d of an overlapping pair has only valid signatures but failed: %v", k, o.err)
+					}
+				}
+				r.Count("overlapping_pairs", 1)
+				r.Distinct("overlap", pair[0].c.Schemes, pair[0].c.Invalid, pair[1].c.Schemes, pair[1].c.Invalid, cfg.SigWorkers)
 			}
 		}
 		// Stop of the pool is C26's subject; never let it block this monitor
